@@ -31,6 +31,7 @@ EVIDENCE_DIR = os.environ.get("MC_EVIDENCE_DIR", os.path.join(ROOT, "evidence"))
 REPLAY_DIR = os.environ.get("MC_REPLAY_DIR", os.path.join(ROOT, "replays"))
 KNOWN_FILE = os.path.join(ROOT, "known_findings.json")
 NPROC = int(os.environ.get("MC_NPROC", str(min(16, os.cpu_count() or 1))))
+_DUMP = os.environ.get("MC_DUMP")  # debugging aid: append every (key, case) to this path prefix
 STATE_CAP = 400_000  # per-shard cap on the number of state hashes shipped to the master
 
 
@@ -99,6 +100,9 @@ class Ctx:
         self.traces += n
 
     def violation(self, key, case, detail=""):
+        if _DUMP:
+            with open(f"{_DUMP}.{os.getpid()}", "a") as f:
+                f.write(f"{key}\t{case!r}\t{str(detail)[:300]!r}\n")
         v = self.violations.get(key)
         if v is None:
             self.violations[key] = {"case": case, "detail": str(detail)[:2000], "count": 1}
